@@ -396,8 +396,10 @@ class WSGITask(Task):
                         # 3. "handler_thread" method in task.py
                         raise exc_info[1]
                     else:
-                        # As per WSGI spec existing headers must be cleared
+                        # As per WSGI spec existing headers must be cleared,
+                        # and with them the length they declared
                         self.response_headers = []
+                        self.content_length = None
                 finally:
                     exc_info = None
 
@@ -415,6 +417,7 @@ class WSGITask(Task):
             # Prepare the headers for output.  Take the pairs out of the
             # application's object once: what is checked below is what is sent
             headers = [(k, v) for k, v in headers]
+            content_length = None
             for k, v in headers:
                 if not isinstance(k, str):
                     raise AssertionError(
@@ -436,7 +439,7 @@ class WSGITask(Task):
 
                 kl = k.lower()
                 if kl == "content-length":
-                    self.content_length = int(v)
+                    content_length = int(v)
                 elif kl in hop_by_hop:
                     raise AssertionError(
                         '%s is a "hop-by-hop" header; it cannot be used by '
@@ -444,6 +447,9 @@ class WSGITask(Task):
                     )
 
             self.response_headers.extend(headers)
+            if content_length is not None:
+                # only a call that was accepted as a whole declares a length
+                self.content_length = content_length
 
             # Return a method used to write the response data.
             return self.write
